@@ -30,6 +30,9 @@ struct WorkerProc {
 }
 
 pub struct Pool {
+    /// largest CPU time (s) a completed job consumed in its worker
+    pub max_cpu_s: f64,
+    pub sum_cpu_s: f64,
     bin: PathBuf,
     workers: Vec<WorkerProc>,
     tx: Sender<(usize, u64, Option<String>)>,
@@ -42,6 +45,8 @@ impl Pool {
     pub fn new(bin: PathBuf, n: usize) -> Pool {
         let (tx, rx) = channel();
         let mut p = Pool {
+            max_cpu_s: 0.0,
+            sum_cpu_s: 0.0,
             bin,
             workers: vec![],
             tx,
@@ -163,6 +168,11 @@ impl Pool {
                                 } else if let Some(id) = v.get("done").and_then(|x| x.as_u64()) {
                                     if let Some(b) = self.workers[idx].busy.take() {
                                         debug_assert_eq!(b.job as u64, id);
+                                        let cpu = crate::seams::proc_cpu_seconds(self.workers[idx].pid).unwrap_or(0.0) - b.cpu_at_dispatch;
+                                        if cpu > self.max_cpu_s {
+                                            self.max_cpu_s = cpu;
+                                        }
+                                        self.sum_cpu_s += cpu.max(0.0);
                                         outstanding -= 1;
                                         on_result(b.job, JobResult::Done(v));
                                     }
